@@ -48,7 +48,7 @@ uintmax_t strtoumax(const char *s, char **end, int base)
 
 void harness(void)
 {
-	char in_text[TLEN + 1];
+	char in_text[TLEN + 1]; V_FILL(in_text);
 	IN(size_t, in_spaces); IN(size_t, in_consumed); IN(int, in_minus); IN(int, in_range); IN(uintmax_t, in_mag);
 	IN(size_t, in_vlen); IN(int, in_unsigned); IN(int, in_has_dest);
 	union { int8_t b; uint8_t y; int16_t n; uint16_t q; int32_t i; uint32_t u; int64_t x; uint64_t t; uint8_t raw[16]; } out;
